@@ -405,7 +405,7 @@ def temporal_reference_check(before: State, after: State, mutations):
 
 
 # ---------------------------------------------------------------- long-lived sessions
-def run_session(state0: State, events, fsdirs, N=2, backend=W.MemBackend, fault_for=None):
+def run_session(state0: State, events, fsdirs, N=2, backend=W.MemBackend, fault_for=None, one_object=False):
     """Library-style use: ONE Repository object per user is kept for the whole
     history (all commands run in one event loop). Returns the list of
     (event, State after it, StepResult)."""
@@ -430,9 +430,23 @@ def run_session(state0: State, events, fsdirs, N=2, backend=W.MemBackend, fault_
                     store.fault = fault_for(len(out), c0)
                 with W.captured():
                     try:
-                        if uname not in repos:
-                            repos[uname] = await W.a_open(store, user_obj(new, uname), N=N, backend=backend)
-                        repo = repos[uname]
+                        if one_object:
+                            # ONE Repository object for everybody: unlocked again whenever the actor changes
+                            usr = user_obj(new, uname)
+                            if '*' not in repos:
+                                repos['*'] = await W.a_open(store, usr, N=N, backend=backend)
+                                repos['who'] = uname
+                            elif repos['who'] != uname:
+                                if usr is None or usr.key is None:
+                                    await repos['*'].unlock()
+                                else:
+                                    await repos['*'].unlock(password=usr.password, key=usr.key)
+                                repos['who'] = uname
+                            repo = repos['*']
+                        else:
+                            if uname not in repos:
+                                repos[uname] = await W.a_open(store, user_obj(new, uname), N=N, backend=backend)
+                            repo = repos[uname]
                         if ev[0] == 'snap':
                             r = await repo.snapshot(paths=[fsdirs[ev[2]]])
                         elif ev[0] == 'snapargs':
@@ -469,6 +483,8 @@ def run_session(state0: State, events, fsdirs, N=2, backend=W.MemBackend, fault_
         finally:
             with W.captured():
                 for r in repos.values():
+                    if isinstance(r, str):
+                        continue
                     try:
                         await r.close()
                     except Exception:
